@@ -245,10 +245,11 @@ func (st *State) addCheck(c *Check) {
 			return
 		}
 	}
-	// a trusted contract is an assumption; only its structural clauses (neverreads, callsonly, cancellable) are checked
+	// a trusted contract is an assumption; only its structural clauses (neverreads, callsonly, cancellable, atcall
+	// assertions about the arguments of a call) are checked
 	if len(st.frames) > 0 && st.frames[0].contract != nil && st.frames[0].contract.Trusted {
 		switch c.Kind {
-		case "cancellable", "callsonly", "vacuity":
+		case "cancellable", "callsonly", "vacuity", "atcall":
 		default:
 			return
 		}
